@@ -55,7 +55,7 @@ AliasedShapes == { Opt(P("int32")), Opt(P("string")), Union(<<Case("int32", P("i
 AliasedAt == UNION { { Rec(<< Field("a", P("int32")), Field("f", Alias(s)), Field("z", P("int8")) >>),
                        Rec(<< Field("f", Alias(Alias(s))), Field("g", Alias(s)) >>),
                        Vec(Alias(s)), Map(P("string"), Alias(s)), Alias(Alias(s)), FVec(Alias(s), 2) } : s \in AliasedShapes }
-             \cup UNION { { Opt(Alias(s)), Union(<<Case("al", Alias(s)), Case("bool", P("bool"))>>, TRUE), NdArr(Alias(s), 1),
+             \cup UNION { { Opt(Alias(s)), Union(<<Case("al" \o (IF s.k = "prim" THEN s.p ELSE s.k), Alias(s)), Case("bool", P("bool"))>>, TRUE), NdArr(Alias(s), 1),
                             Rec(<< Field("o", Opt(Alias(s))), Field("v", Vec(Alias(s))) >>) } : s \in { x \in AliasedShapes : ~IsUnionishT(x) } }
 NamedTypes == RNamed \cup PodContainers \cup AliasedAt \cup { RGenU, Vec(RGenU), RPod, RPod2, E3, EU8, EI64, F3, FU64, R2, ROpt, REmpty, Alias(P("int32")), Alias(P("string")), Alias(Vec(P("float32"))) }
 
